@@ -6,7 +6,9 @@ usage: c10_child.py '<json plan>'      (launched by harness/c10.py with
 plan = {"dir": scratch dir, "nfiles": 2..5, "workers": 1..4, "file": index
         of the file whose worker is hit, "point": name, "kind": "raise" |
         "raise_ude" | "raise_conn" | "raise_pipe" | "raise_eof" | "raise_os"
-        | "exit" | "bad_utf8" | "none", "k": ordinal for the
+        | "raise_unpicklable" | "raise_local" | "exit" | "bad_utf8" |
+        "bad_gzip_crc" | "gzip_junk" | "none", "decode_errors": optional
+        FileSearcher(decode_errors=...), "k": ordinal for the
         counted points, "t1": seconds allowed for run 1, "t2": for run 2,
         "hold": seconds to stay at the point before firing (default 0),
         "slow": optional {"file": j, "secs": s}: the worker of file j pauses
@@ -82,6 +84,15 @@ def _fire():
         raise RuntimeError('injected fault')
     if kind == 'raise_ude':
         raise UnicodeDecodeError('utf-8', b'\xff', 0, 1, 'injected fault')
+    # an exception object that cannot be pickled (a user-supplied constraint
+    # or matcher raising something that carries a file object / is a class
+    # defined inside a function)
+    if kind == 'raise_unpicklable':
+        raise HoldsFile('injected fault')
+    if kind == 'raise_local':
+        class LocalError(Exception):
+            """ not importable: cannot be pickled by reference """
+        raise LocalError('injected fault')
     # what a reset / broken connection to the manager's queue looks like
     if kind == 'raise_conn':
         raise ConnectionResetError(104, 'Connection reset by peer')
@@ -92,6 +103,37 @@ def _fire():
     if kind == 'raise_os':
         raise OSError(5, 'Input/output error')
     raise AssertionError(kind)
+
+
+class HoldsFile(Exception):
+    """ carries an open file object """
+    def __init__(self, msg):
+        super().__init__(msg)
+        self.fd = open(os.devnull, 'rb')  # pylint: disable=consider-using-with
+
+
+DATA_KINDS = ('bad_utf8', 'bad_gzip_crc', 'gzip_junk')
+
+
+def write_file(path, i, damage=None, k=1):
+    """ the i-th test file; `damage`: None | one of DATA_KINDS """
+    lines = []
+    for j in range(NLINES):
+        if damage == 'bad_utf8' and j + 1 == k:
+            lines.append(b'hello \xff\xfe bad\n')
+        else:
+            lines.append(f"hello {i} {j}\n".encode())
+    data = b''.join(lines)
+    if damage in ('bad_gzip_crc', 'gzip_junk'):
+        import gzip
+        z = gzip.compress(data)
+        if damage == 'bad_gzip_crc':       # valid header, wrong CRC32
+            z = z[:-8] + bytes([z[-8] ^ 0x5a]) + z[-7:]
+        else:                              # garbage after the member
+            z = z + b'\x17junk after the gzip member\n'
+        data = z
+    with open(path, 'wb') as f:
+        f.write(data)
 
 
 def at(point):
@@ -112,7 +154,7 @@ def at(point):
         CUR['counts']['slow'] = n + 1
         if n == 0:
             time.sleep(slow['secs'])      # a sibling that is still busy
-    if PLAN['kind'] in ('none', 'bad_utf8') or PLAN['point'] != point:
+    if PLAN['kind'] in ('none',) + DATA_KINDS or PLAN['point'] != point:
         return
     if CUR['path'] != _target():
         return
@@ -345,7 +387,8 @@ def canon(results, paths):
 
 
 def searcher(paths, workers):
-    s = FileSearcher(max_parallel_tasks=workers)
+    s = FileSearcher(max_parallel_tasks=workers,
+                     decode_errors=PLAN.get('decode_errors'))
     sd = SearchDef(PATTERN, tag='t')
     for p in paths:
         s.add(sd, p)
@@ -360,25 +403,19 @@ def main():
     paths = []
     for i in range(PLAN['nfiles']):
         p = os.path.join(d, f"f{i}.txt")
-        with open(p, 'wb') as f:
-            for j in range(NLINES):
-                if PLAN['kind'] == 'bad_utf8' and i == PLAN['file'] and \
-                        j + 1 == PLAN.get('k', 1):
-                    f.write(b'hello \xff\xfe bad\n')
-                else:
-                    f.write(f"hello {i} {j}\n".encode())
+        write_file(p, i, PLAN['kind'] if PLAN['kind'] in DATA_KINDS and
+                   i == PLAN['file'] else None, PLAN.get('k', 1))
         paths.append(p)
     PLAN['_paths'] = paths
     # expected results: one fault-free single-file (in-process) run per path
     expected = []
     for i, p in enumerate(paths):
-        if PLAN['kind'] == 'bad_utf8' and i == PLAN['file']:
-            # this file cannot be searched under strict decoding; run 2
-            # uses the other files plus a clean copy
+        if PLAN['kind'] in DATA_KINDS and i == PLAN['file']:
+            # this file cannot be searched (undecodable under strict
+            # decoding / damaged gzip stream); run 2 uses the other files
+            # plus a clean copy
             q = os.path.join(d, f"g{i}.txt")
-            with open(q, 'wb') as f:
-                for j in range(NLINES):
-                    f.write(f"hello {i} {j}\n".encode())
+            write_file(q, i)
             p = q
         s = searcher([p], 1)
         expected += canon(s.run(), [p])
@@ -411,7 +448,8 @@ def main():
         OUT['run1'] = 'returned'
         try:
             OUT['run1_complete'] = (
-                PLAN['kind'] != 'bad_utf8' and canon(res, paths) == expected)
+                PLAN['kind'] not in DATA_KINDS and
+                canon(res, paths) == expected)
         except Exception as exc:  # pylint: disable=broad-except
             OUT['run1_complete'] = False
             OUT['run1_read_error'] = type(exc).__name__
